@@ -318,6 +318,7 @@ def ensure_facts(repo="/repo"):
         d = os.path.join(CACHE, "facts", h)
         dbpath = os.path.join(d, "facts.sqlite")
         if os.path.exists(dbpath):
+            os.utime(d)
             return dbpath
         os.makedirs(d, exist_ok=True)
         log(f"no cached facts for source state {h} ({nfiles} files): extracting")
@@ -325,7 +326,7 @@ def ensure_facts(repo="/repo"):
         run_driver(repo, out_dir)
         load_jsonl(out_dir, dbpath, {"hash": h, "repo": repo, "files": nfiles, "time": time.time()})
         shutil.rmtree(out_dir, ignore_errors=True)
-        prune_cache(keep=6)
+        prune_cache(keep=10)
         return dbpath
     finally:
         fcntl.flock(lock, fcntl.LOCK_UN)
